@@ -75,7 +75,15 @@ end Bytes
 
 /-! ## decimal rendering (strconv.Itoa / FormatInt / FormatUint) -/
 
-def natToBytes (n : Nat) : Bytes := b (toString n)
+/-- decimal digits, most significant first (structural recursion on fuel, so that the kernel can
+compute it; `fuel = n + 1` is always enough) -/
+def natToBytesAux : Nat → Nat → Bytes → Bytes
+  | 0, _, acc => acc
+  | fuel + 1, n, acc =>
+    let acc' := UInt8.ofNat (48 + n % 10) :: acc
+    if n / 10 = 0 then acc' else natToBytesAux fuel (n / 10) acc'
+
+def natToBytes (n : Nat) : Bytes := natToBytesAux (n + 1) n []
 
 def intToBytes (z : Int) : Bytes :=
   if z < 0 then (45 : UInt8) :: natToBytes z.natAbs else natToBytes z.natAbs
